@@ -1,18 +1,18 @@
 #!/usr/bin/env python3
 """print the markdown table of seeded changes and which checks catch them (from seeded/*/meta.json)"""
-import json, os
+import json, os, re, sys
+VERIF = os.path.dirname(os.path.dirname(os.path.abspath(__file__)))
 rows = []
-for sid in sorted(os.listdir("/verif/seeded")):
-    m = json.load(open("/verif/seeded/%s/meta.json" % sid))
-    need = (m.get("needs_to_manifest") or "").replace("\n", " ")
-    first = need.split(" - ")[0] if need.startswith("#") else need
-    title = need.lstrip("# ").split("\n")[0][:110]
-    det = m.get("detected_by")
-    if isinstance(det, dict):
-        d = "; ".join("%s %s: %s" % (p, v.get("tier", ""), v.get("result", "")) for p, v in sorted(det.items()))
-    else:
-        d = str(det)
-    rows.append("| %s | %s | %s | %s |" % (sid, m["breaks_property"], title.replace("|", "/"), d))
-print("| seed | breaks | change (first line of the author's notes) | result of the checks |")
-print("|---|---|---|---|")
-print("\n".join(rows))
+short = {"violation with replay": "VIOLATION+replay", "no-failing-input-found": "VIOLATION no-failing-input-found", "missed": "not detected", "check timed out": "timed out"}
+for sid in sorted(os.listdir(VERIF + "/seeded")):
+    m = json.load(open(VERIF + "/seeded/%s/meta.json" % sid))
+    need = (m.get("needs_to_manifest") or "").strip()
+    title = re.sub(r"^#+\s*", "", need.split("\n")[0])[:120].replace("|", "/")
+    det = m.get("detected_by") if isinstance(m.get("detected_by"), dict) else {}
+    own = m["breaks_property"]
+    o = det.get(own, {})
+    others = sorted(p for p, v in det.items() if p != own and v.get("result") in ("violation with replay", "no-failing-input-found"))
+    rows.append("| %s | %s | %s | %s | %s |" % (sid, own, title, short.get(o.get("result"), o.get("result", "not run")), " ".join(others) or "-"))
+print("| seed | breaks | change (first line of the author's notes) | check of that property (quick tier) | other checks that also report it |")
+print("|---|---|---|---|---|")
+sys.stdout.write("\n".join(rows) + "\n")
